@@ -12,7 +12,7 @@ DECIDES = ('(a) StandardRequestHandler dispatches exactly GET_STATUS(0), CLEAR_F
            'of the fallback exactly when no handler claims (encoder.n), the default fallback is a StallOnlyRequestHandler '
            'whose condition is constant true and which can only stall; (c) in the CLEAR_FEATURE state the ZLP and the '
            'clear-halt strobe must both be excluded when the request is to be STALLed (recipient != ENDPOINT or feature != '
-           'ENDPOINT_HALT). ')
+           'ENDPOINT_HALT); the dispatch operand is bRequest itself or a full 8-bit combinational copy of it. ')
 NOT_DECIDED = 'handlers added by user code (their claim logic).'
 I = 'self.interface.'
 
